@@ -64,8 +64,9 @@ def _run_one(args):
             return dict(id=mid, desc=desc, status="not-applicable", why=na)
         # syntactic sanity: the mutant must still compile
         for rel, _, _ in edits:
-            with open(os.path.join(root, rel), encoding="utf-8") as f:
-                compile(f.read(), rel, "exec")
+            if rel.endswith(".py"):
+                with open(os.path.join(root, rel), encoding="utf-8") as f:
+                    compile(f.read(), rel, "exec")
         mod = importlib.import_module("checks.%s" % prop.lower())
         ctx = Ctx(prop, tier="quick", repo=root, quiet=True, write=False)
         buf = io.StringIO()
